@@ -59,6 +59,7 @@ var cur struct {
 	tz      string
 	snaps   []map[string]string
 	intFlag map[string]int
+	ckpts   []string
 }
 
 func NativeMain(t *testing.T, harnesses map[string]func()) {
@@ -107,6 +108,7 @@ func runCase(c Case, h func()) (res CaseResult) {
 	cur.tz = ""
 	cur.snaps = nil
 	cur.intFlag = nil
+	cur.ckpts = nil
 	cur.choices = nil
 	cur.ci = 0
 	if ch, ok := c.Inputs["@choices"].([]interface{}); ok {
@@ -365,6 +367,41 @@ func List(dir string) []string {
 	}
 	sort.Strings(out)
 	return out
+}
+
+// Checkpoint copies the whole case directory (work tree and home); Restore puts a copy back.
+func Checkpoint() int {
+	base := filepath.Dir(cur.root)
+	dst := filepath.Join(base, fmt.Sprintf("ckpt%d", len(cur.ckpts)))
+	copyTree(cur.root, filepath.Join(dst, "w"))
+	copyTree(cur.home, filepath.Join(dst, "h"))
+	cur.ckpts = append(cur.ckpts, dst)
+	return len(cur.ckpts) - 1
+}
+
+func Restore(id int) {
+	os.RemoveAll(cur.root)
+	os.RemoveAll(cur.home)
+	copyTree(filepath.Join(cur.ckpts[id], "w"), cur.root)
+	copyTree(filepath.Join(cur.ckpts[id], "h"), cur.home)
+}
+
+func copyTree(src, dst string) {
+	filepath.Walk(src, func(p string, info os.FileInfo, err error) error {
+		if err != nil {
+			return nil
+		}
+		rel, _ := filepath.Rel(src, p)
+		t := filepath.Join(dst, rel)
+		if info.IsDir() {
+			os.MkdirAll(t, 0o755)
+		} else {
+			b, _ := os.ReadFile(p)
+			os.MkdirAll(filepath.Dir(t), 0o755)
+			os.WriteFile(t, b, 0o644)
+		}
+		return nil
+	})
 }
 
 func Snapshot(root string) int {
